@@ -3,6 +3,9 @@ CONSTANTS
   Stages = 3
   AccEvals = 1
   DenseEvals = 2
+  CountRule = "hairer"
+  HasHinit = TRUE
+  HasSmall = TRUE
   StiffEvery = 2
   StiffLimit = 3
   NonStiffReset = 2
